@@ -109,6 +109,25 @@ impl Params {
         }
     }
 
+    /// Wide fan-out (C11): many requirements on distinct packages.
+    pub fn fanout() -> Self {
+        Params {
+            min_pkgs: 4,
+            max_pkgs: 12,
+            max_cands: 3,
+            max_reqs: 6,
+            max_constrains: 3,
+            p_union: 200,
+            p_root_union: 200,
+            min_root_reqs: 1,
+            max_root_reqs: 8,
+            max_root_constraints: 3,
+            p_forward: 800,
+            vs_w: [5, 1, 3, 2, 0],
+            ..Params::default()
+        }
+    }
+
     /// development aid: VERIF_PARAMS='{"max_cands":6,...}' overrides fields
     pub fn env_override(self) -> Self {
         match std::env::var("VERIF_PARAMS") {
